@@ -167,7 +167,10 @@ func (r *raftState) getLastIndex() uint64 {
 func (r *raftState) getLastEntry() (uint64, uint64) {
 	r.lastLock.Lock()
 	defer r.lastLock.Unlock()
-	if r.lastLogIndex >= r.lastSnapshotIndex {
+	// When both end at the same index the snapshot wins: what a snapshot covers
+	// is committed, whereas a log entry left at that index may be a stale one
+	// from an older term that the snapshot has superseded.
+	if r.lastLogIndex > r.lastSnapshotIndex {
 		return r.lastLogIndex, r.lastLogTerm
 	}
 	return r.lastSnapshotIndex, r.lastSnapshotTerm
